@@ -4,6 +4,8 @@ package policy
 // of trust, whichever verification mode is used.
 
 import (
+	policyopts "github.com/gittuf/gittuf/internal/policy/options/policy"
+	"github.com/gittuf/gittuf/internal/tuf"
 	"strconv"
 
 	zzmem "github.com/gittuf/gittuf/internal/zzmem"
@@ -137,6 +139,23 @@ func HarnessC02Chain() {
 		_, err := LoadCurrentState(w.ctx, w.S, PolicyRef)
 		verif.Assert((err == nil) == valid, "LoadCurrentState-errs-iff-chain-invalid")
 		verif.Reach("loadstate")
+		// the first root of trust pinned by the caller: every pinned principal
+		// must have signed it (P0's root is signed by key0 and key1)
+		var pinned []tuf.Principal
+		pinnedSigned := true
+		switch verif.Concrete(verif.Choice("pinned", 4)) {
+		case 1:
+			pinned = []tuf.Principal{zzKey(0)}
+		case 2:
+			pinned = []tuf.Principal{zzKey(0), zzKey(1)}
+		case 3:
+			pinned = []tuf.Principal{zzKey(0), zzKey(2)}
+			pinnedSigned = false
+		}
+		if len(pinned) > 0 {
+			_, err := LoadCurrentState(w.ctx, w.S, PolicyRef, policyopts.WithInitialRootPrincipals(pinned))
+			verif.Assert((err == nil) == verif.And(valid, pinnedSigned), "pinned-first-root:loads-iff-chain-valid-and-every-pinned-principal-signed")
+		}
 		return
 	}
 
